@@ -37,7 +37,9 @@ impl Projector {
             }
             Node::Section(_) => {
                 blocks.push(GraphBlock::Header(
-                    self.header_level as u8 + 1,
+                    // Markdown has six heading levels: "#######" is read back as a paragraph,
+                    // and 255 + 1 does not fit the u8; deeper sections are written at level 6
+                    (self.header_level + 1).min(6) as u8,
                     iter.inlines(),
                 ));
 
